@@ -1,5 +1,5 @@
 import PvModel.Generated.Core
-/-! Pin obligation for C20: the parts of Multitask that are not translated (`__check_input__`, `__check_modes__`, `__get_mode__`, `execute`, `__parallelize__`, `__run__` are: R20).
+/-! Pin obligation for C20: the parts of Multitask that are not translated (`__check_input__`, `__check_modes__`, `__get_mode__`, `__init__`, `execute`, `__parallelize__`, `__run__` are: R20).
 These functions are modelled by hand (not translated by `tools/py2lean.py`) and tied to the code by the correspondence suites. The regenerated
 facts carry a fingerprint of their source text (docstrings / comments removed, `ast.unparse` under /venv's Python); this theorem says the text is
 the one the model was last validated against. A change of any of them breaks it — the check then searches for a failing input; if none is found
@@ -8,7 +8,7 @@ namespace T20
 open Generated
 
 def expected : List (String × String) := [
-      ("multitask.py:Multitask.__init__", "f0b7a9872c00f9e9"),
+      ("multitask.py:Multitask.__set_keyword_arguments__", "d7cddf9b9d3e66ba"),
       ("multitask.py:Multitask.export_results", "c0202127f4a2503f"),
       ("enums.py:ModeSolver", "4de7ea767a39ed87"),
       ("enums.py:ExportType", "6caabe4ba049c017")]
